@@ -118,6 +118,16 @@ theorem commFold_order_independent {α β : Type} (f : β → α → β)
 theorem allAny_order_independent {α : Type} (p : α → Bool) (l₁ l₂ : List α) (h : l₁.Perm l₂) :
     l₁.all p = l₂.all p ∧ l₁.any p = l₂.any p := ⟨all_perm p h, any_perm p h⟩
 
+/-- GENERAL (append per entry, consumer builds a set or sorts): a loop that appends
+`f(entry)` to a slice in map order yields the same elements with the same
+multiplicities whatever the order, hence the same set (`getBoundParamIds`, whose only
+consumers insert every id into a set) and the same sorted list (append-then-sort). -/
+theorem appendPerEntry_order_independent {α : Type} (f : α → List Key) (l₁ l₂ : List α)
+    (h : l₁.Perm l₂) :
+    (l₁.flatMap f).Perm (l₂.flatMap f) ∧ (∀ x, x ∈ l₁.flatMap f ↔ x ∈ l₂.flatMap f) ∧
+      sortKeys (l₁.flatMap f) = sortKeys (l₂.flatMap f) :=
+  ⟨h.flatMap_right f, fun _ => (h.flatMap_right f).mem_iff, sort_keys_order_independent _ _ (h.flatMap_right f)⟩
+
 /-- The accumulating loop over the map ITSELF (the code before this round's fixes):
 the two flags and the result map do not depend on the iteration order, and the error
 list is the same up to order ... -/
@@ -218,6 +228,7 @@ example : (accumulateIn [er 49 false, er 50 true, er 51 true]).done = false
     ∧ (accumulateIn [er 49 false, er 50 true, er 51 true]).vals = [([107, 49], [118, 49]), ([107, 50], [118, 50]), ([107, 51], [118, 51])] := by decide
 example : (accumulateIn [er 51 true, er 49 false, er 50 true]).errs ≠ (accumulateIn [er 49 false, er 50 true, er 51 true]).errs := by decide
 example : buildMap (fun k (v : Nat) => k.length + v) [([1], 5), ([2, 3], 7)] = [([1], 6), ([2, 3], 9)] := by decide
+example : ([([1], [[5], [6]]), ([2], [[7]])] : List (Key × List Key)).flatMap (·.2) ≠ [([2], [[7]]), ([1], [[5], [6]])].flatMap (·.2) := by decide
 /-- a step that does not commute is excluded by the hypothesis of `commFold_order_independent` -/
 example : ¬ ∀ (b : List Nat) x y, (b ++ [x]) ++ [y] = (b ++ [y]) ++ [x] := fun h => by
   have := h [] 1 2; simp at this
